@@ -23,7 +23,7 @@ What is abstracted (and therefore only compared, or trusted)
 * `WrapperStateSpace` around a *compound* space used as a component of another compound: the C++ code
   `static_cast`s the wrapper to `CompoundStateSpace` (undefined behaviour).  The model returns what the probe
   observed (no children, no value locations); theorems about locations / partial copies assume `Sp.ok`
-  (no such node).  Recorded as finding F-C09-c.
+  (no such node).  Recorded as finding F32.
 -/
 namespace OmplModel.Copy
 
@@ -620,8 +620,8 @@ structure Vertex where
   img : List Nat
 deriving DecidableEq, Repr
 
-/-- the in-memory graph with the code's start/goal bookkeeping: `starts` is kept sorted by
-`markStartState`; `goals` is *not* (markGoalState sorts `startVertexIndices_` again — finding F-C09-a),
+/-- the in-memory graph with the code's start/goal bookkeeping: `starts` and `goals` are kept sorted by
+`markStartState` / `markGoalState` (the latter since fix 4a60b3f19, F29; `markGoalOld` is the code before it),
 and both membership tests are `std::binary_search`. -/
 structure Graph where
   verts : List Vertex := []
@@ -662,8 +662,16 @@ def Graph.markStart (g : Graph) (i : Nat) : Graph :=
     if g.isStart i then g else { g with starts := insertSorted i g.starts }
   else g
 
-/-- `markGoalState`: push_back, and the *start* list is sorted -/
+/-- `markGoalState` (as fixed by 4a60b3f19): push_back + sort of the goal list (the list stays sorted) -/
 def Graph.markGoal (g : Graph) (i : Nat) : Graph :=
+  if i < g.verts.length then
+    if g.isGoal i then g else { g with goals := insertSorted i g.goals }
+  else g
+
+/-- `markGoalState` before 4a60b3f19: push_back, and the *start* list was sorted again, so the goal list stayed in
+marking order although `isGoalVertex` is a binary search.  Kept for the witness
+`load_store_unsorted_goals_old_fails`; not used by the driver. -/
+def Graph.markGoalOld (g : Graph) (i : Nat) : Graph :=
   if i < g.verts.length then
     if g.isGoal i then g else { g with goals := g.goals ++ [i] }
   else g
